@@ -53,6 +53,20 @@ def jobs(tier):
                            functions=["_vnacal_new_add_common (cell maps)", "vnacal_new_add_line_m"],
                            bound="%s 3x3, two-port standard with abbreviated 2x2 M on ports (%d,%d); measured values symbolic" % (t, p1, p2),
                            timeout=300))
+    seqs = [("grow_16_first", "16,3,4,5,6,7,8,9"), ("grow_16_last", "3,4,5,6,7,8,16,9"), ("grow_no_collision", "3,4,5,6,7,8,9,10"),
+            ("small", "16,3")]
+    if tier != "quick":
+        seqs += [("grow_descending", "16,15,14,13,12,11,10,9"), ("grow_8_and_16", "8,16,3,4,5,6,7,9,10")]
+    for nm, sq in seqs:
+        J.append(V.Job("param_hash." + nm, "vnacal/c01_hash.c", "h_param_hash",
+                       C20.BASE + ["vnacal_make_scalar_parameter.c", "vnacal_delete_parameter.c"],
+                       defines=C20.CUT + ["-DHASH_SEQ=" + sq], unwind=6,
+                       cbmc_flags=["--unwindset", "hash_expand.0:18,hash_expand.1:18,hash_expand.2:18,_vnacal_new_free_parameter_hash.0:34,_vnacal_new_free_parameter_hash.1:34,_vnacal_teardown_parameter_collection.0:24,_vnacal_teardown_parameter_collection.1:24"], union_struct=True, kind="bounded",
+                       canary=(nm == "grow_16_first"),
+                       functions=["hash_expand", "hash_lookup", "hash_insert", "_vnacal_new_get_parameter",
+                                  "_vnacal_new_init_parameter_hash", "_vnacal_new_free_parameter_hash"],
+                       bound="handles %s requested in this order from a new TE10 2x2 calibration (table grows 8->16 at the 8th node), then every handle looked up again" % sq,
+                       timeout=120))
     return J
 
 
